@@ -45,8 +45,13 @@ def main(tier: str) -> int:
         reuse = calls[cls] % 2 == 0 and cls in used
         g = used[cls] if reuse else cls()
         chk.count("refitted_instance" if reuse else "fresh_instance")
-        g = g.fit(left_border=np.array(left, dtype=np.float64), right_border=np.array(right, dtype=np.float64),
-                  num_variables=nvar, bits_per_variable=np.array(bits, dtype=np.int64))
+        # the caller keeps (and later reuses) the vectors it passed to fit: a fitted grid does not depend on them any more
+        work_bits = np.array(bits, dtype=np.int64)
+        work_left, work_right = np.array(left, dtype=np.float64), np.array(right, dtype=np.float64)
+        g = g.fit(left_border=work_left, right_border=work_right, num_variables=nvar, bits_per_variable=work_bits)
+        work_bits[...] = work_bits[::-1] + 1
+        work_left += 3.5
+        work_right *= -2.0
         used[cls] = g
         total = int(sum(bits))
         if int(g.get_str_len()) != total:
